@@ -9,27 +9,29 @@ from . import common as cm
 
 RS = [1, 2, 3, 8]
 CS = [1, 2, 3, 4, 5, 6, 12]
-CONC = [(0.001, 10, 10), (0.01, 10, 20), (0.3, 30, 30), (1, 100, 100), (5, 10, 500), (5, 10, 10), (1, 123, 123), (0.2, 1, 1), (0.2, 1, 10), (1, 10, 12), (1, 1e10, 1e10), (0.5, 2e8, 1e9)]
-VMAX = [100, 500, 1000, "ramp", 150.5, 99.75]
+CONC = [(0.001, 10, 10), (0.01, 10, 20), (0.3, 30, 30), (1, 100, 100), (5, 10, 500), (5, 10, 10), (1, 123, 123), (0.2, 1, 1), (0.2, 1, 10), (1, 10, 12), (1, 1e10, 1e10), (0.5, 2e8, 1e9), (10, 10, 30), (5, 5.5, 16)]
+VMAX = [100, 500, 1000, "ramp", 150.5, 99.75, "down"]
 MINT = [1, 2.5, 10, 10.25, 20, 50]
 
 
 def vmax_of(v, C):
     if v == "ramp":
         return [200 + 100 * c for c in range(C)]
+    if v == "down":
+        return [1000] + [100] * (C - 1)  # one large column, small ones behind it
     return v
 
 
 class Harness(cm.BaseB):
     id = "C14"
     rule = (
-        "complete grid R {1,2,3,8} x C {1,2,3,4,5,6,12} x mode {log,linear} x 12 (xmin,xmax,stock) triples (ranges up to "
-        "ten orders of magnitude) x vmax {100, 500, 1000, per-column ramp, 150.5, 99.75} x min_transfer {1,2.5,10,10.25,20,50} = 24192 "
+        "complete grid R {1,2,3,8} x C {1,2,3,4,5,6,12} x mode {log,linear} x 14 (xmin,xmax,stock) triples (xmin = xmax, ranges up to "
+        "ten orders of magnitude) x vmax {100, 500, 1000, per-column ramp, 150.5, 99.75, one large column followed by small ones} x min_transfer {1,2.5,10,10.25,20,50} = 32928 "
         "constructor calls (thorough adds R {4,16}, C {8,24}); concentrations compared at 1e-9 relative; "
         "every returned plan is re-derived from its instructions in exact arithmetic and executed with to_worklist on "
         "EvoWorklist and FluentWorklist x worklist max_volume {950,200} x destination plate yes/no x mix_repeat {0,2}, "
         "with stock/diluent troughs that have fewer or more virtual rows than R and use a non-zero column "
-        "(quick: execution for R*C <= 24).  non-trivial = a plan was returned; distinct = distinct parameter set"
+        "(quick: execution for R*C <= 24, two of the four set-ups per plan in rotation).  non-trivial = a plan was returned; distinct = distinct parameter set"
     )
     assumptions = ["a destination-plate transfer is only requested when every column keeps enough volume for it; mixing aspirates and dispenses into the same well and needs no budget"]
 
@@ -120,13 +122,17 @@ class Harness(cm.BaseB):
         if plan.max_steps != max(steps.values()):
             V.append(("C14/max_steps", f"{what}: reports {plan.max_steps}, instructions imply {max(steps.values())}"))
         if not V and case["exec"]:
-            V += self.execute(plan, what, R, C, stock, vm, x, v_stock, drawn)
+            # quick tier: two of the four execution set-ups per plan, rotating with the parameter indices
+            pick = None if getattr(self, "tier", "quick") != "quick" else (case["conc"] + case["vmax"] + MINT.index(case["mt"]) + R) % 2
+            V += self.execute(plan, what, R, C, stock, vm, x, v_stock, drawn, pick)
         return "plan", repr(case), V
 
-    def execute(self, plan, what, R, C, stock, vm, x, v_stock, drawn):
+    def execute(self, plan, what, R, C, stock, vm, x, v_stock, drawn, pick=None):
         V = []
         slack = min(float(vm[c] - max(drawn[c])) for c in range(C))
         combos = [("EvoWorklist", 950, False, 2, R + 1, False), ("FluentWorklist", 200, True, 0, max(1, R - 1), False), ("FluentWorklist", 950, True, 2, 1, True), ("EvoWorklist", 200, False, 0, R, True)]
+        if pick is not None:
+            combos = combos[pick::2]
         for dev, maxv, with_dest, mix_repeat, vrows, one_trough in combos:
             with_dest = with_dest and slack >= 1
             tag = f"{what} executed on {dev}(max_volume={maxv}), destination={with_dest}, mix_repeat={mix_repeat}, trough rows={vrows}, one trough={one_trough}"
